@@ -75,6 +75,7 @@ def run_one(job):
             if r['error']:
                 rec['error'] = f"[{vname}] {r['error']}"
             else:
+                contracts.post_invariants(I, inst, r['results'], r.get('args', []))
                 if post:
                     post(I, inst, r['results'])
             for o in I.obs:
